@@ -194,8 +194,50 @@ pub fn gen_ops(r: &mut Rng, mix: &Mix) -> Vec<Op> {
     ops
 }
 
+/// C11, epoch-structured: 2-4 process lifetimes of 1-5 writes each over a 2-3 tuple domain, each ended by
+/// optional maintenance (save / compact) and a clean restart - what the logical clock, the shard
+/// frontiers and the start-up WAL drain see across several restarts.
+fn c11_epochs(seed: u64) -> Case {
+    let mut rc = Rng::new(seed, P_CFG);
+    let mut rw = Rng::new(seed, P_WORK);
+    let kg = "default".to_string();
+    let dom = rw.range(2, 3) as i32;
+    let rels: Vec<String> = if rw.chance(1, 4) { vec!["r".into(), "s".into()] } else { vec!["r".into()] };
+    let one = |r: &mut Rng| {
+        let i = r.below(dom as u64) as i32;
+        int_tuple(i + 1, (i * 7 + 2) % 5)
+    };
+    let mut ops = Vec::new();
+    for _ in 0..rw.range(2, 4) {
+        for _ in 0..rw.range(1, 5) {
+            let rel = rw.pick(&rels).clone();
+            let k = rw.range(1, 2);
+            let tuples: Vec<T> = (0..k).map(|_| one(&mut rw)).collect();
+            if rw.chance(3, 5) {
+                ops.push(Op::Insert { kg: kg.clone(), rel, tuples });
+            } else {
+                ops.push(Op::Delete { kg: kg.clone(), rel, tuples });
+            }
+        }
+        match rw.below(6) {
+            0 => ops.push(Op::SaveAll),
+            1..=2 => ops.push(Op::CompactAll),
+            3 => {
+                ops.push(Op::SaveAll);
+                ops.push(Op::CompactAll);
+            }
+            _ => {}
+        }
+        ops.push(Op::Restart);
+    }
+    Case { seed, cfg: swarm_cfg(&mut rc, true), ops, check_model: true, ..Default::default() }
+}
+
 /// C11: random histories of inserts/deletes/maintenance/restarts on one relation.
 pub fn c11_random(seed: u64) -> Case {
+    if seed % 2 == 1 {
+        return c11_epochs(seed);
+    }
     let mut rc = Rng::new(seed, P_CFG);
     let mut rw = Rng::new(seed, P_WORK);
     let mut mix = Mix::data_only();
@@ -580,7 +622,10 @@ pub fn c14_base(seed: u64) -> Case {
     mix.w_delete = 6;
     mix.w_save = 0;
     mix.w_compact = 0;
-    mix.w_restart = 0;
+    // restarts are part of the base history (both twins restart at the same points): maintenance must
+    // stay invisible across several process lifetimes, not only up to the first restart
+    mix.w_restart = if seed % 2 == 0 { 3 } else { 0 };
+    mix.n_tuples = if seed % 2 == 0 { 3 } else { 4 };
     mix.w_drop_rel = 1;
     mix.w_probe = 1;
     let ops = gen_ops(&mut rw, &mix);
@@ -974,10 +1019,16 @@ pub fn c32_case(seed: u64) -> HCase {
 }
 
 fn gen_typed_value(r: &mut Rng, ty: &str, conform: bool) -> V {
+    let vecn = |r: &mut Rng, n: usize| V::Vec((0..n).map(|_| ((r.range(0, 8) as f32) * 0.5 + 0.25).to_bits()).collect());
     let good = match ty {
         "int" => V::I64(r.range(0, 5) as i64),
         "string" => V::Str(r.pick(&["a", "b", "c"]).to_string()),
         "float" => V::F64((r.range(0, 5) as f64 + 0.5).to_bits()),
+        "vector(3)" => vecn(r, 3),
+        "vector" => {
+            let n = r.range(1, 4) as usize;
+            vecn(r, n)
+        }
         _ => V::Bool(r.chance(1, 2)),
     };
     if conform {
@@ -987,6 +1038,16 @@ fn gen_typed_value(r: &mut Rng, ty: &str, conform: bool) -> V {
         "int" => V::Str("x".into()),
         "string" => V::I64(7),
         "float" => V::Str("f".into()),
+        // a vector of the wrong dimension (the same representation as a good one), or not a vector
+        "vector(3)" => {
+            if r.chance(2, 3) {
+                let n = *r.pick(&[2usize, 4]);
+                vecn(r, n)
+            } else {
+                V::Str("v".into())
+            }
+        }
+        "vector" => V::Str("v".into()),
         _ => V::Str("t".into()),
     }
 }
@@ -997,6 +1058,8 @@ pub fn c33_case(seed: u64) -> HCase {
     let mut rw = Rng::new(seed, P_WORK);
     let kg = "default".to_string();
     let tys = ["int", "string", "float", "bool"];
+    // vector types only in the second column (a declaration whose first column is a vector type is not parsed as a schema by the unchanged tree)
+    let tys_b = ["int", "string", "float", "bool", "vector(3)", "vector(3)", "vector"];
     let mut ops = Vec::new();
     let mut declared: Vec<(String, Vec<(String, String)>)> = Vec::new();
     let n = rw.range(3, 9) as usize;
@@ -1005,7 +1068,7 @@ pub fn c33_case(seed: u64) -> HCase {
         let rel = rw.pick(&["t", "u"]).to_string();
         match rw.below(23) {
             0..=4 => {
-                let cols = vec![("a".to_string(), rw.pick(&tys).to_string()), ("b".to_string(), rw.pick(&tys).to_string())];
+                let cols = vec![("a".to_string(), rw.pick(&tys).to_string()), ("b".to_string(), rw.pick(&tys_b).to_string())];
                 let text = format!("+{rel}({})", cols.iter().map(|(c, t)| format!("{c}: {t}")).collect::<Vec<_>>().join(", "));
                 declared.retain(|(r, _)| r != &rel);
                 declared.push((rel.clone(), cols.clone()));
@@ -1014,8 +1077,8 @@ pub fn c33_case(seed: u64) -> HCase {
             5..=12 => {
                 // a batch against the declared schema (or against nothing)
                 let cols = declared.iter().find(|(r, _)| r == &rel).map(|(_, c)| c.clone()).unwrap_or_else(|| vec![("a".into(), "int".into()), ("b".into(), "int".into())]);
-                let k = rw.range(1, 3) as usize;
-                let mode = rw.below(3); // 0 all conform, 1 one bad, 2 all bad
+                let k = rw.range(1, 4) as usize;
+                let mode = rw.below(3); // 0 all conform, 1 one bad (the last one), 2 all bad
                 let tuples: Vec<T> = (0..k)
                     .map(|j| {
                         let bad = mode == 2 || (mode == 1 && j == k - 1);
@@ -1036,7 +1099,7 @@ pub fn c33_case(seed: u64) -> HCase {
             }
             13..=15 => {
                 // another client declares a request-local schema for the same relation
-                let cols = vec![("a".to_string(), rw.pick(&tys).to_string()), ("b".to_string(), rw.pick(&tys).to_string())];
+                let cols = vec![("a".to_string(), rw.pick(&tys).to_string()), ("b".to_string(), rw.pick(&tys_b).to_string())];
                 let text = format!("{rel}({})", cols.iter().map(|(c, t)| format!("{c}: {t}")).collect::<Vec<_>>().join(", "));
                 ops.push(HOp::Program { kg: kg.clone(), text, effect: Effect::SessionSchema { rel, cols } });
             }
@@ -1050,7 +1113,7 @@ pub fn c33_case(seed: u64) -> HCase {
                 let mut eff_cols = declared.iter().find(|(r, _)| r == &rel).map(|(_, c)| c.clone());
                 let mut sess_cols: Option<Vec<(String, String)>> = None;
                 for _ in 0..rw.range(1, 2) {
-                    let cols = vec![("a".to_string(), rw.pick(&tys).to_string()), ("b".to_string(), rw.pick(&tys).to_string())];
+                    let cols = vec![("a".to_string(), rw.pick(&tys).to_string()), ("b".to_string(), rw.pick(&tys_b).to_string())];
                     let decl = cols.iter().map(|(c, t)| format!("{c}: {t}")).collect::<Vec<_>>().join(", ");
                     if rw.chance(2, 3) {
                         stmts.push((format!("{rel}({decl})"), Effect::SessionSchema { rel: rel.clone(), cols: cols.clone() }));
